@@ -200,7 +200,7 @@ func genExactCase(r *wire.Rng, n int, w *wire.Out) {
 	for _, f := range t.Fetches {
 		for _, a := range f {
 			switch a.Kind {
-			case "key", "keys", "objName", "nsIndex", "valIndex", "outIndex":
+			case "key", "keys", "nokeys", "objName", "nsIndex", "valIndex", "outIndex":
 				canHold = false
 			}
 		}
